@@ -12,8 +12,11 @@ def run(res, args):
         "Go's fmt %X/%02X are modelled (fmt_X8, fmt_02X8, fmt_X_bytes), not verified; the exhaustive comparison below checks the model against them on the whole domain",
     ]
     common.build_harness()
+    from lib import gen, drvgen
+    gen.regenerate_all()
     rc, out = common.coq_make()
     ok = common.standard_proof_cov(res, "C03", THEOREMS)
+    drvgen.src_obligations(res, "C03")
     try:
         common.build_ocaml()
     except Broken as b:
